@@ -10,6 +10,9 @@ import SuccinctlyVerif.Proof.JsonNav
 import SuccinctlyVerif.Proof.JsonNavTree
 import SuccinctlyVerif.Proof.JsonNavDecode
 import SuccinctlyVerif.Proof.JsonNavRange
+import SuccinctlyVerif.Proof.JsonNavFull
+import SuccinctlyVerif.Proof.JsonNavFast
+import SuccinctlyVerif.Proof.JsonBridge
 namespace SV.Props.C06
 open SV SV.JsonNav SV.JsonText SV.JsonSemi
 
@@ -24,6 +27,14 @@ byte of the `k`-th node in preorder. -/
 theorem index_structure (d : Doc) :
     (reference d.text).bp = treeBp d.value ∧ (reference d.text).ib = toksStdIb d.toks :=
   ⟨(reference_doc d).2, (reference_doc d).1⟩
+
+/-- Tree-level statement of the IB part: for every valid document, the `k`-th interest bit of the
+index is the first byte of the `k`-th node of the document tree in preorder (containers, object keys
+and values, array elements; `spansOf` lists the nodes' spans in preorder), and there are no further
+interest bits. -/
+theorem index_structure_preorder (d : Doc) (k : Nat) :
+    selectB true (reference d.text).ib k = ((spansOf d.value (blen (wsToks d.ws0))).map (·.1))[k]? := by
+  rw [JsonSimple.selectB_truePositions, ib_preorder]
 
 /-- Non-vacuity: `{"k":[1,{}]}`. -/
 example :
@@ -86,6 +97,42 @@ theorem navigate_eq (hasAvx2 : Bool) (d : Doc) (fuel : Nat) (hf : depth d.value 
     reconstruct (build hasAvx2 false d.text) fuel 0 = valueOf d.value :=
   navigate_doc hasAvx2 d fuel hf
 
+/-- `navigate_eq` with no free navigation hypotheses: `buildComposed` is `JsonIndex::build` composed
+from the dispatched semi-index builder (C05), the full model of `BalancedParens::new` with its
+L0/L1/L2 and rank directories (C04, either feature build `simd`) and `ib_select1_from` with its rank
+array and galloping search (C07).  For every document shorter than 2^30 bytes (so that
+`bp_len = 2·nodes < 2^31`, the side condition of C04's `find_close` / `enclose` theorems; `build`
+itself asserts `len ≤ u32::MAX`) the build succeeds and the walk from the root yields the value of
+the document.  Which theorem closes which primitive: `is_open` ← `C04.is_open_eq`, `find_close` ←
+`C04.find_close_family_eq`, `parent` ← `C04.method_enclose_eq`, `rank1` ← `C04.rank1_eq`,
+`ib_select1_from` ← `C07.text_position_eq`; `first_child` / `next_sibling` are the C04 model's own
+methods (`moves_composed`).  Still trusted: `core::str::from_utf8` and `char::from_u32`. -/
+theorem navigate_eq_composed (hasAvx2 simd : Bool) (d : Doc) (hlen : d.text.length < 2 ^ 30) (fuel : Nat)
+    (hf : depth d.value ≤ fuel) :
+    (buildComposed hasAvx2 simd d.text).map (fun x => reconstruct x fuel 0) = some (valueOf d.value) :=
+  navigate_composed hasAvx2 simd d hlen fuel hf
+
+/-- The composed primitives equal the specification primitives on the whole domain of the
+constructors (not only on documents). -/
+theorem prims_discharged (simd : Bool) (ibWords bpWords : List (BitVec 64)) (ibLen bpLen : Nat)
+    (hw : bpWords.length = (bpLen + 63) / 64) (hlen : bpLen < 2 ^ 31)
+    (hb : (ibWords.map popcount).sum < JsonIb.U32) :
+    (BPM.construct simd true bpWords bpLen .noSelect).map (fun I => Prims.composed I ibWords ibLen) =
+      some (Prims.spec (bitsOf ibWords ibLen) (bitsOf bpWords bpLen)) :=
+  prims_composed_eq_spec simd ibWords bpWords ibLen bpLen hw hlen hb
+
+example : (buildComposed true false [0x5B#8, 0x31#8, 0x2C#8, 0x5B#8, 0x5D#8, 0x5D#8]).map
+    (fun x => (children x 0, textPosition x 3, parent x 3)) = some ([1, 3], some 3, some 0) := by
+  decide +kernel
+
+/-- The array-backed primitives the driver uses on large documents (`Prims.fast`: array scans for
+`find_close` / `enclose`, prefix counts for `rank1`, the array of interest-bit positions for select)
+are the specification primitives, for all bit lists; so `build _ true` and `build _ false` are the
+same index on every input and the correspondence run validates the model the theorems are about. -/
+theorem prims_fast_eq (ib bp : List Bool) : Prims.fast ib bp = Prims.spec ib bp ∧
+    ∀ (f : Bool) (json : List (BitVec 8)), build f true json = build f false json :=
+  ⟨prims_fast_eq_spec ib bp, build_fast_eq⟩
+
 /-- `JsonFields::find` / `find_cursor` on the object at cursor `p` of any index: when every key
 decodes, the result is the value of the LAST field — in `uncons` order, which by `navigate_eq` is
 source order — whose decoded key equals `name`, `None` when there is none.  (If some string key
@@ -112,20 +159,24 @@ example :
 
 /-! ### raw byte ranges -/
 
-/-- `text_range` (hence `raw_bytes`) of a node is exactly its source token — string with both
-quotes, number literal, `true`/`false`/`null` — or, for a container, the span from its open bracket to
-its own close bracket, proved:
-* for every value or object key `v` *located* in an index (`LocT`: the token segment `v.toks` sits at
-  BP offset `b` and text offset `a`, with the nodes before it equal to the opens before it), followed
-  by text that does not continue a number and either non-empty or reaching the end of the document —
-  which is the situation of every cursor visited by the walk of `navigate_eq` (shown inside its
-  proof by `val_nav` / `field_step`, each recursive call being made on a located segment);
-* for the root of every document.
-MISSING (hence `_partial`): the statement packaged over "every node of every document", i.e. a
-walker returning the range of each visited cursor together with the tree of expected spans; the
-locatedness of the visited cursors is established in the proof of `navigate_eq` but not exported
-as a theorem. -/
-theorem raw_range_eq_partial (hasAvx2 : Bool) (d : Doc) :
+/-- For every valid document and either SIMD level, `text_range()` (hence `raw_bytes()`) of EVERY node
+visited by the walk from the root — containers, object keys, field values, array elements, in
+pre-order — is exactly the node's source span `spansOf`: the token of a scalar or key (string with
+both quotes, number literal, `true`/`false`/`null`), or for a container the span from its open bracket
+to its own close bracket.  `rangesWalk` is the walk of `navigate_eq` collecting `text_range()`. -/
+theorem raw_range_eq (hasAvx2 : Bool) (d : Doc) (fuel : Nat) (hf : depth d.value ≤ fuel) :
+    rangesWalk (build hasAvx2 false d.text) fuel 0 = (spansOf d.value (blen (wsToks d.ws0))).map some :=
+  rangesWalk_doc hasAvx2 d fuel hf
+
+/-- The same over the composed model (no navigation hypotheses). -/
+theorem raw_range_eq_composed (hasAvx2 simd : Bool) (d : Doc) (hlen : d.text.length < 2 ^ 30) (fuel : Nat)
+    (hf : depth d.value ≤ fuel) :
+    (buildComposed hasAvx2 simd d.text).map (fun x => rangesWalk x fuel 0) =
+      some ((spansOf d.value (blen (wsToks d.ws0))).map some) := by
+  rw [buildComposed_doc hasAvx2 simd d hlen, Option.map_some, rangesWalk_doc hasAvx2 d fuel hf]
+
+/-- Located form: `text_range` at any value or key located in an index (`LocT`), and at the root. -/
+theorem raw_range_located (hasAvx2 : Bool) (d : Doc) :
     textRange (build hasAvx2 false d.text) 0 =
       some ((toksBytes (wsToks d.ws0)).length,
         (toksBytes (wsToks d.ws0)).length + (toksBytes d.value.toks).length) ∧
@@ -134,6 +185,14 @@ theorem raw_range_eq_partial (hasAvx2 : Bool) (d : Doc) :
       textRange (mkIndex T IB BP) b = some (a, a + (toksBytes v.toks).length)) :=
   ⟨textRange_root hasAvx2 d, fun _ _ _ v follow _ _ h hs ha => textRange_at v follow h hs ha⟩
 
+/-- Non-vacuity: ` [1, {"k":"]"}] ` — all five nodes with their spans. -/
+example :
+    let d : Doc := ⟨[.sp], .arr [] (.num ⟨false, .nonzero 0 [], none, none⟩) []
+      (.cons [.sp] (.obj [] [.plain ⟨0x6B#8, by decide⟩] [] [] (.str [.plain ⟨0x5D#8, by decide⟩]) [] .nil) [] .nil), [.sp]⟩
+    rangesWalk (build true false d.text) 3 0 =
+      [some (1, 15), some (2, 3), some (5, 14), some (6, 9), some (10, 13)] := by
+  decide +kernel
+
 /-- Non-vacuity: ` [1, {"k":"]"}] ` — the root range is bytes 1..15 (whitespace excluded; the `]`
 inside the string does not end the array). -/
 example :
@@ -141,5 +200,31 @@ example :
       (.cons [.sp] (.obj [] [.plain ⟨0x6B#8, by decide⟩] [] [] (.str [.plain ⟨0x5D#8, by decide⟩]) [] .nil) [] .nil), [.sp]⟩
     d.text.length = 16 ∧ textRange (build true false d.text) 0 = some (1, 15) := by
   decide +kernel
+
+/-! ### the documents quantified over are exactly the RFC 8259 texts of C08 -/
+
+/-- Every document whose strings are well-formed (`StrsOk`: each string body and key satisfies C08's
+`StrBody` — unescaped characters are well-formed UTF-8 scalars ≥ U+0020 other than `"` and `\`,
+`\u` escapes are non-surrogates or high/low pairs) renders to a text that is `Valid` in C08's
+grammar (`Spec/Json.lean`), with nesting bound `depth d.value`. -/
+theorem docs_are_valid_texts (d : Doc) (h : StrsOk d.value) : Json.Valid (depth d.value) d.text :=
+  doc_valid d h
+
+/-- Conversely every `Valid` text, for any nesting bound, is the rendering of such a document. -/
+theorem valid_texts_are_docs (D : Nat) (b : List (BitVec 8)) (h : Json.Valid D b) :
+    ∃ d : Doc, d.text = b ∧ StrsOk d.value :=
+  valid_lift D b h
+
+/-- Hence C06 over exactly the RFC 8259 texts of C08: for every `Valid` text shorter than 2^30 bytes
+the composed `JsonIndex::build` succeeds and walking it from the root yields the value of a document
+tree whose rendering is that text (and whose strings are well-formed, so every string decodes by
+`decode_escapes_eq` to what the specification decoder gives). -/
+theorem navigate_eq_valid (hasAvx2 simd : Bool) (D : Nat) (b : List (BitVec 8)) (h : Json.Valid D b)
+    (hlen : b.length < 2 ^ 30) :
+    ∃ d : Doc, d.text = b ∧ StrsOk d.value ∧ ∀ fuel, depth d.value ≤ fuel →
+      (buildComposed hasAvx2 simd b).map (fun x => reconstruct x fuel 0) = some (valueOf d.value) := by
+  obtain ⟨d, hd, hok⟩ := valid_lift D b h
+  subst hd
+  exact ⟨d, rfl, hok, fun fuel hf => navigate_composed hasAvx2 simd d hlen fuel hf⟩
 
 end SV.Props.C06
